@@ -30,4 +30,13 @@ PROPS = {
         "trusted": ["num-bigint from_bytes_le / to_bytes_le / % as modelled in model/Bigint.v"],
         "assumptions": ["the check is decided on the repaired function (fix commit a367a59); the pinned shortcut is kept as model/LegacyKey.v with its refutation"],
     },
+    "C13": {
+        "prop_files": ["props/C13.v"],
+        "consts": ["max_string_length"],
+        "runner": "run_C13",
+        "byte_exact": True,
+        "rule": "strings as lists of Unicode scalar values: every ASCII byte at positions 0..15 of a 16-byte string, every single ASCII char, lengths 0..20, random mixes of 1/2/3/4-byte characters summing to 13..18 bytes, random mostly-valid strings through all five constructors, ==/cmp on related pairs (case variants, prefixes, one-char changes); implementation-only oracle: every scalar value as a one-character string and behind a 15-byte prefix, random strings, idempotence, case-insensitivity, Hash/Display following the text.",
+        "trusted": ["Rust str/char semantics as modelled (chars(), len(), is_ascii, is_ascii_control, to_ascii_uppercase, derived Ord/Eq on (array, length)); the private fields are read through the derived Debug output"],
+        "assumptions": ["a Rust &str is modelled as a list of Unicode scalar values; SipHash (derived Hash) is not modelled, hashing is covered by injectivity of text -> struct"],
+    },
 }
